@@ -490,7 +490,7 @@ theorem pairProvide_inv {w w' : World} {p : Nat} {P : PairSt} {sender : Nat} {fu
   split at h
   · cases h
   simp only [bind_ok_iff, pure_ok_iff, Prod.mk.injEq] at h
-  obtain ⟨share', _, w1, h1, w2, h2, w3, h3, w4, h4, rfl, rfl⟩ := h
+  obtain ⟨share', _, w1, h1, w2, h2, w3, h3, _, _, w4, h4, rfl, rfl⟩ := h
   have e := (supplyOf_ok hS).1
   subst e
   exact ⟨d0, d1, w1, w2, w3, h1, h2, h3, h4⟩
@@ -686,13 +686,9 @@ theorem routerReceive_moves {name : Asset → String} {w w' : World} {from_ : Na
     (h : routerReceive name w from_ hk = .ok w') (hf : S from_) (hrc : ∀ z ∈ hk.receivers, S z)
     (hroute : hk.isRoute = true → S w.router ∧ ∀ z, (w.pair z).isSome → S z) :
     Moves F S Q w w' := by
-  cases hk with
-  | routerOps ops mn to =>
-    obtain ⟨hr, hp⟩ := hroute rfl
-    exact routerSwapOps_moves h (getD_mem hf hrc) hr hp
-  | swap offer amt b ms to => cases h
-  | withdraw => cases h
-  | garbage => cases h
+  obtain ⟨ops, mn, to, rfl, _, _, h⟩ := routerReceive_ok h
+  obtain ⟨hr, hp⟩ := hroute rfl
+  exact routerSwapOps_moves h (getD_mem hf hrc) hr hp
 
 theorem routerExec_moves {name : Asset → String} {w w' : World} {sender : Nat} {funds : List (Nat × Nat)}
     {m : RouterMsg} (h : routerExec name w sender funds m = .ok w')
@@ -711,11 +707,17 @@ theorem routerExec_moves {name : Asset → String} {w w' : World} {sender : Nat}
   have hp0 : ∀ z, (w0.pair z).isSome → S z := fun z hz => hp z (s0.pair ▸ hz)
   refine (attach_moves hs hr h0).trans ?_
   cases m with
-  | swapOps ops mn to => exact routerSwapOps_moves h (getD_mem hs hm) hr0 hp0
-  | swapOp o a to => exact (routerHop_moves h hr0 hp0 (getD_mem hr0 hm)).1
+  | swapOps ops mn to =>
+    simp only [bind_ok_iff] at h
+    obtain ⟨_, _, h⟩ := h
+    exact routerSwapOps_moves h (getD_mem hs hm) hr0 hp0
+  | swapOp o a to =>
+    simp only [bind_ok_iff] at h
+    obtain ⟨_, _, h⟩ := h
+    exact (routerHop_moves h hr0 hp0 (getD_mem hr0 hm)).1
   | assertMin a prev mn rcv =>
     simp only [bind_ok_iff, pure_ok_iff] at h
-    obtain ⟨_, _, rfl⟩ := h
+    obtain ⟨_, _, _, _, rfl⟩ := h
     exact .refl _
   | receive from_ amount hk =>
     exact routerReceive_moves h hm.1 hm.2 (fun _ => ⟨hr0, hp0⟩)
@@ -859,6 +861,8 @@ theorem facAddDecimals_ledger {w w' : World} {sender denom decimals : Nat}
 theorem facUpdateConfig_ledger {w w' : World} {sender : Nat} {o tc pc : Option Nat}
     (h : facUpdateConfig w sender o tc pc = .ok w') : Ledger w w' := by
   unfold facUpdateConfig at h
+  split at h
+  · cases h
   split at h
   · cases h
   injection h with h
